@@ -374,7 +374,7 @@ func runC06(c *core.Ctx) {
 			}
 			timeout = 100 * time.Second
 		}
-		c.RunSharded(cases, core.ShardOpts{Mode: "c06", Bin: bin, Workers: 7, CPUs: 2, Timeout: timeout, PerCase: 150 * time.Millisecond, Env: env, Died: died(race)})
+		c.RunSharded(cases, core.ShardOpts{Mode: "c06", Bin: bin, Workers: 7, CPUs: 2, Timeout: timeout, PerCaseTime: 150 * time.Millisecond, Env: env, Died: died(race)})
 	}
 	c.Extra("race_detector_reports", countRaceReports(c, c.Scratch+"/race-C06", "C06"))
 }
